@@ -15,6 +15,7 @@ import (
 	"strconv"
 	"strings"
 	"time"
+	"unicode/utf8"
 )
 
 // FilterFunc is a function that can be used as a filter
@@ -1116,7 +1117,8 @@ func length(v interface{}) (int, error) {
 
 	switch value := v.(type) {
 	case string:
-		return len(value), nil
+		// Strings are sequences of characters, like for loops, first, last and slice see them
+		return utf8.RuneCountInString(value), nil
 	case []interface{}:
 		return len(value), nil
 	case map[string]interface{}:
@@ -1126,7 +1128,9 @@ func length(v interface{}) (int, error) {
 	// Use reflection for other types
 	rv := reflect.ValueOf(v)
 	switch rv.Kind() {
-	case reflect.Array, reflect.Slice, reflect.Map, reflect.String:
+	case reflect.String:
+		return utf8.RuneCountInString(rv.String()), nil
+	case reflect.Array, reflect.Slice, reflect.Map:
 		return rv.Len(), nil
 	}
 
@@ -1343,7 +1347,9 @@ func (e *CoreExtension) filterCapitalize(value interface{}, args ...interface{})
 	words := strings.Fields(s)
 	for i, word := range words {
 		if len(word) > 0 {
-			words[i] = strings.ToUpper(word[0:1]) + strings.ToLower(word[1:])
+			// Upper-case the first character (which may be several bytes long)
+			_, size := utf8.DecodeRuneInString(word)
+			words[i] = strings.ToUpper(word[:size]) + strings.ToLower(word[size:])
 		}
 	}
 
@@ -1360,7 +1366,9 @@ func (e *CoreExtension) filterTitle(value interface{}, args ...interface{}) (int
 	words := strings.Fields(s)
 	for i, word := range words {
 		if len(word) > 0 {
-			words[i] = strings.ToUpper(word[0:1]) + strings.ToLower(word[1:])
+			// Upper-case the first character (which may be several bytes long)
+			_, size := utf8.DecodeRuneInString(word)
+			words[i] = strings.ToUpper(word[:size]) + strings.ToLower(word[size:])
 		}
 	}
 
@@ -1374,8 +1382,8 @@ func (e *CoreExtension) filterFirst(value interface{}, args ...interface{}) (int
 
 	switch v := value.(type) {
 	case string:
-		if len(v) > 0 {
-			return string(v[0]), nil
+		for _, r := range v {
+			return string(r), nil // first character, not first byte
 		}
 		return "", nil
 	case []interface{}:
@@ -1394,9 +1402,8 @@ func (e *CoreExtension) filterFirst(value interface{}, args ...interface{}) (int
 	rv := reflect.ValueOf(value)
 	switch rv.Kind() {
 	case reflect.String:
-		s := rv.String()
-		if len(s) > 0 {
-			return string(s[0]), nil
+		for _, r := range rv.String() {
+			return string(r), nil // first character, not first byte
 		}
 		return "", nil
 	case reflect.Array, reflect.Slice:
@@ -1422,7 +1429,8 @@ func (e *CoreExtension) filterLast(value interface{}, args ...interface{}) (inte
 	switch v := value.(type) {
 	case string:
 		if len(v) > 0 {
-			return string(v[len(v)-1]), nil
+			r, _ := utf8.DecodeLastRuneInString(v) // last character, not last byte
+			return string(r), nil
 		}
 		return "", nil
 	case []interface{}:
@@ -1438,7 +1446,8 @@ func (e *CoreExtension) filterLast(value interface{}, args ...interface{}) (inte
 	case reflect.String:
 		s := rv.String()
 		if len(s) > 0 {
-			return string(s[len(s)-1]), nil
+			r, _ := utf8.DecodeLastRuneInString(s) // last character, not last byte
+			return string(r), nil
 		}
 		return "", nil
 	case reflect.Array, reflect.Slice:
@@ -1510,8 +1519,10 @@ func (e *CoreExtension) filterSlice(value interface{}, args ...interface{}) (int
 		return nil, err
 	}
 
-	// Default length is to the end
-	length := -1
+	// Default length is to the end; a negative length given explicitly means
+	// "stop that many elements before the end"
+	length := 0
+	hasLength := false
 	if len(args) > 1 {
 		// Make sure we can convert the second argument to an integer
 		if args[1] != nil {
@@ -1519,6 +1530,7 @@ func (e *CoreExtension) filterSlice(value interface{}, args ...interface{}) (int
 			if err != nil {
 				return nil, err
 			}
+			hasLength = true
 		}
 	}
 
@@ -1545,12 +1557,12 @@ func (e *CoreExtension) filterSlice(value interface{}, args ...interface{}) (int
 
 		// Calculate end index
 		end := runeCount
-		if length >= 0 {
+		if hasLength && length >= 0 {
 			end = start + length
 			if end > runeCount {
 				end = runeCount
 			}
-		} else if length < 0 {
+		} else if hasLength {
 			// Negative length means count from the end
 			end = runeCount + length
 			if end < start {
@@ -1577,12 +1589,12 @@ func (e *CoreExtension) filterSlice(value interface{}, args ...interface{}) (int
 
 		// Calculate end index
 		end := count
-		if length >= 0 {
+		if hasLength && length >= 0 {
 			end = start + length
 			if end > count {
 				end = count
 			}
-		} else if length < 0 {
+		} else if hasLength {
 			// Negative length means count from the end
 			end = count + length
 			if end < start {
@@ -1616,12 +1628,12 @@ func (e *CoreExtension) filterSlice(value interface{}, args ...interface{}) (int
 
 		// Calculate end index
 		end := runeCount
-		if length >= 0 {
+		if hasLength && length >= 0 {
 			end = start + length
 			if end > runeCount {
 				end = runeCount
 			}
-		} else if length < 0 {
+		} else if hasLength {
 			// Negative length means count from the end
 			end = runeCount + length
 			if end < start {
@@ -1648,12 +1660,12 @@ func (e *CoreExtension) filterSlice(value interface{}, args ...interface{}) (int
 
 		// Calculate end index
 		end := count
-		if length >= 0 {
+		if hasLength && length >= 0 {
 			end = start + length
 			if end > count {
 				end = count
 			}
-		} else if length < 0 {
+		} else if hasLength {
 			// Negative length means count from the end
 			end = count + length
 			if end < start {
@@ -1715,6 +1727,24 @@ func (e *CoreExtension) filterMerge(value interface{}, args ...interface{}) (int
 	// Handle merging arrays/slices
 	rv := reflect.ValueOf(value)
 	if rv.Kind() == reflect.Slice || rv.Kind() == reflect.Array {
+		// A typed slice ([]string, []int, ...) can only hold its own element type,
+		// the arguments may hold anything: merge into a []interface{} then
+		if rv.Type().Elem().Kind() != reflect.Interface || rv.Kind() == reflect.Array {
+			merged := make([]interface{}, 0, rv.Len())
+			for i := 0; i < rv.Len(); i++ {
+				merged = append(merged, rv.Index(i).Interface())
+			}
+			for _, arg := range args {
+				argRv := reflect.ValueOf(arg)
+				if argRv.Kind() == reflect.Slice || argRv.Kind() == reflect.Array {
+					for i := 0; i < argRv.Len(); i++ {
+						merged = append(merged, argRv.Index(i).Interface())
+					}
+				}
+			}
+			return merged, nil
+		}
+
 		result := reflect.MakeSlice(rv.Type(), rv.Len(), rv.Len())
 
 		// Copy original values
@@ -1748,6 +1778,24 @@ func (e *CoreExtension) filterMerge(value interface{}, args ...interface{}) (int
 
 	// Handle merging maps
 	if rv.Kind() == reflect.Map {
+		// A typed map (map[string]string, map[string]int, ...) can only hold its
+		// own value type: merge string-keyed ones into a map[string]interface{}
+		if rv.Type().Key().Kind() == reflect.String && rv.Type().Elem().Kind() != reflect.Interface {
+			merged := make(map[string]interface{}, rv.Len())
+			for _, key := range rv.MapKeys() {
+				merged[key.String()] = rv.MapIndex(key).Interface()
+			}
+			for _, arg := range args {
+				argRv := reflect.ValueOf(arg)
+				if argRv.Kind() == reflect.Map {
+					for _, key := range argRv.MapKeys() {
+						merged[toString(key.Interface())] = argRv.MapIndex(key).Interface()
+					}
+				}
+			}
+			return merged, nil
+		}
+
 		// Create a new map with the same key and value types
 		resultMap := reflect.MakeMap(rv.Type())
 
@@ -1845,6 +1893,25 @@ func (e *CoreExtension) filterSort(value interface{}, args ...interface{}) (inte
 		// This ensures [3, '1', 2, '10'] sorts as ['1', '10', '2', '3']
 		result := make([]interface{}, len(v))
 		copy(result, v)
+
+		// A list of numbers only is sorted numerically
+		allNumbers := true
+		for _, item := range v {
+			switch item.(type) {
+			case int, int8, int16, int32, int64, uint, uint8, uint16, uint32, uint64, float32, float64:
+			default:
+				allNumbers = false
+			}
+		}
+		if allNumbers {
+			sort.SliceStable(result, func(i, j int) bool {
+				a, _ := toFloat64(result[i])
+				b, _ := toFloat64(result[j])
+				return a < b
+			})
+			return result, nil
+		}
+
 		sort.Slice(result, func(i, j int) bool {
 			return toString(result[i]) < toString(result[j])
 		})
